@@ -42,6 +42,7 @@ enum
     K_SHORT,
     K_FAIL,
     K_BIGACQ,  // a tiff / tiff-json acquisition of a few ~1 GiB frames (sparse): file offsets beyond 4 GiB
+    K_INTRUDER, // a second device is pointed at the running device's output and started: refused, and harmless
     K_COUNT
 };
 
@@ -50,6 +51,7 @@ const VhKindSpec kKinds[K_COUNT] = {
     { "START", 3, 0, 0, 0, 65535 },          { "FRAME", 8, 255, 65535, 65535, 65535 }, { "APPEND", 3, 0, 0, 0, 65535 },
     { "STOP", 3, 0, 0, 0, 65535 },           { "CLOSE", 2, 0, 0, 0, 0 },           { "SHORT", 2, 255, 65535, 0, 0 },
     { "FAIL", 3, 255, 255, 1, 0 },           { "BIGACQ", 1, 255, 65535, 0, 0 },
+    { "INTRUDER", 2, 255, 0, 0, 0 },
 };
 
 enum
@@ -84,6 +86,8 @@ enum
     CL_TIFF_CHECKED,
     CL_RESTART_WITHOUT_SET,
     CL_BEYOND_4GIB,
+    CL_INTRUDER_REFUSED,
+    CL_INTRUDER_ADMITTED,
 };
 
 const VhSpec kSpec = {
@@ -96,7 +100,8 @@ const VhSpec kSpec = {
       "zero_length_write", "multi_packet", "file_uri", "absolute_path", "metadata", "empty_metadata_after_nonempty", "set_rejected",
       "fault_fired", "fault_open", "fault_flock", "fault_pwrite", "fault_persistent", "device_used_after_fault", "failed_append_reported",
       "close_while_running", "close_without_start", "start_stop_without_frames", "f32_frames", "odd_image_size", "raw_file_compared",
-      "tiff_file_read_back", "restart_without_set", "file_offsets_beyond_4GiB", nullptr },
+      "tiff_file_read_back", "restart_without_set", "file_offsets_beyond_4GiB", "second_device_on_running_file_refused",
+      "second_device_on_running_file_admitted", nullptr },
     { "C14 non-trivial: a raw file was compared byte for byte AND (>=2 acquisitions on that device, or a short write inside a multi-frame packet)",
       "C15 non-trivial: a TIFF file was read back AND (N>=2 frames in >=2 packets, or >=2 start/stop cycles on one device, or tiff-json)",
       "C16 non-trivial: an injected fault fired and the device was used again afterwards, or close while running / without start with the "
@@ -126,6 +131,7 @@ struct Acq
     bool all_ok = true;     // start + every append returned Ok
     bool error_fault = false; // an error fault (not merely short writes) fired during it
     bool short_in_multi = false;
+    bool interfered = false; // a second device was admitted to the same file: contents are not judged
 };
 
 struct Ctx
@@ -146,6 +152,7 @@ struct Ctx
     bool fault_seen = false;   // a fault fired at some point on this device
     bool short_on = false;
     bool restart_without_set = false;
+    bool any_fail_token = false; // a FAIL token was seen in this case (its countdown must not be consumed by an intruder)
     std::vector<std::pair<void*, size_t>> big_maps;
 };
 
@@ -735,7 +742,7 @@ do_stop(Ctx& x)
         return;
     x.acq.started = false;
     // a completed acquisition: judge the file
-    bool judge = x.acq.all_ok && !x.acq.error_fault;
+    bool judge = x.acq.all_ok && !x.acq.error_fault && !x.acq.interfered;
     if (judge && x.kind == 0)
         check_raw(x);
     else if (judge && (x.kind == 1 || x.kind == 2) && !x.acq.frames.empty())
@@ -804,6 +811,53 @@ do_close(Ctx& x)
     x.pending_frames.clear();
     x.acq = Acq();
     x.configured = false;
+}
+
+// While the device is running, a second device (same kind, or the other single-file kind) is
+// configured with the running device's path and started -- two streams given one URI, or a second
+// program.  file_create takes an exclusive lock, so the start is refused; whatever it does on the way
+// must leave the running acquisition's file alone: the usual comparison at stop is the oracle.
+void
+do_intruder(Ctx& x, const VhTok& t)
+{
+    if (!x.dev || !x.acq.started || x.kind == 3 || x.any_fail_token || storage_get_state(x.dev) != DeviceState_Running)
+        return;
+    do_append(x); // what was appended so far is on disk
+    if (x.c.ended || !x.acq.started)
+        return;
+    int k2 = x.kind == 2 ? 2 : ((t.a & 1) ? x.kind : 1 - x.kind);
+    DeviceIdentifier id;
+    memset(&id, 0, sizeof id);
+    id.kind = DeviceKind_Storage;
+    id.device_id = (uint8_t)kDeviceId[k2];
+    std::string uri = (t.a & 2) ? "file://" + x.acq.path : x.acq.path;
+    x.c.trace("INTRUDER %s uri=%s: open, set, start, close", kKindName[k2], uri.c_str());
+    op_begin();
+    vfd::set_op_call_bound(2000);
+    Storage* d2 = storage_open(&g_dm, &id);
+    if (!d2)
+        return;
+    StorageProperties props;
+    memset(&props, 0, sizeof props);
+    PixelScale sc = { 1, 1 };
+    storage_properties_init(&props, 0, uri.c_str(), uri.size() + 1, nullptr, 0, sc, 0);
+    DeviceStatusCode rs = storage_set(d2, &props);
+    storage_properties_destroy(&props);
+    DeviceStatusCode r = rs == Device_Ok ? storage_start(d2) : Device_Err;
+    bool admitted = r == Device_Ok && storage_get_state(d2) == DeviceState_Running;
+    x.c.trace("    -> set %s, start %s", rs == Device_Ok ? "ok" : "rejected", admitted ? "ADMITTED" : "refused");
+    if (admitted) {
+        x.c.cls(CL_INTRUDER_ADMITTED);
+        x.acq.interfered = true;
+        storage_stop(d2);
+    } else
+        x.c.cls(CL_INTRUDER_REFUSED);
+    int before = vfd::open_owned_count();
+    storage_close(d2);
+    (void)before;
+    g_op_write_failed = 0;
+    g_op_create_failed = 0; // the refused create belongs to the intruder, not to the device under test
+    check_vfd(x, "intruder");
 }
 
 // A tiff / tiff-json acquisition of nfr frames of ~1 GiB each.  The frames live in untouched
@@ -1076,7 +1130,11 @@ vh_run(const VhTok* tape, size_t n, VhReport* rep)
             case K_BIGACQ:
                 do_big_acq(x, t);
                 break;
+            case K_INTRUDER:
+                do_intruder(x, t);
+                break;
             case K_FAIL: {
+                x.any_fail_token = true;
                 vfd::Fault f;
                 static const vfd::Call calls[4] = { vfd::C_PWRITE, vfd::C_OPEN, vfd::C_FLOCK, vfd::C_PWRITE };
                 static const int errs[4] = { EIO, ENOSPC, EACCES, EINTR };
